@@ -1196,9 +1196,97 @@ fn make_node(n: usize, w: Rc<RefCell<World>>) -> NodeFut {
                 Action::Srv { call } => do_srv(n, a, &w, &mut server, call).await,
                 Action::Legacy { kind, t, arg, at } => crate::taskmodel::do_legacy(n, a, &w, &mut replica, *kind, *t, *arg, *at).await,
             }
+            let reads = {
+                let wb = w.borrow();
+                matches!(wb.sc.check.as_str(), "C07" | "C15" | "C19") && wb.sc.faults.is_empty() && wb.sc.under_test.is_none()
+            };
+            if reads {
+                reads_agree(n, a, &w, &mut replica).await;
+            }
             post_check(n, &w, &format!("action {a}"));
         }
     })
+}
+
+/// The replica's read API describes the stored data: every bulk getter (tasks, task data, uuids,
+/// pending tasks, the working-set view, the operation counters) agrees with what a direct
+/// inspection of the store shows.
+async fn reads_agree(n: usize, a: usize, w: &Rc<RefCell<World>>, replica: &mut Replica<SimStorage>) {
+    let st = simstorage::read_store(&w.borrow().stores[n]);
+    let mut errs: Vec<String> = Vec::new();
+    let props = |m: &taskchampion::storage::TaskMap| -> model::Props { m.iter().map(|(k, v)| (k.clone(), v.clone())).collect() };
+    if let Ok(all) = replica.all_tasks().await {
+        let got: model::TaskSet = all.iter().map(|(u, t)| (*u, props(t.get_taskmap()))).collect();
+        if got != st.tasks || all.iter().any(|(u, t)| t.get_uuid() != *u) {
+            errs.push(format!("all_tasks gives {}, stored {}", model::fmt_taskset(&got), model::fmt_taskset(&st.tasks)));
+        }
+    }
+    if let Ok(all) = replica.all_task_data().await {
+        let got: model::TaskSet = all.iter().map(|(u, t)| (*u, t.iter().map(|(k, v)| (k.clone(), v.clone())).collect())).collect();
+        if got != st.tasks || all.iter().any(|(u, t)| t.get_uuid() != *u) {
+            errs.push(format!("all_task_data gives {}, stored {}", model::fmt_taskset(&got), model::fmt_taskset(&st.tasks)));
+        }
+    }
+    if let Ok(mut us) = replica.all_task_uuids().await {
+        us.sort();
+        if us != st.tasks.keys().copied().collect::<Vec<_>>() {
+            errs.push(format!("all_task_uuids gives {} uuids, stored {}", us.len(), st.tasks.len()));
+        }
+    }
+    // one entry per occupied working-set slot whose task exists
+    let mut exp_pending: Vec<(Uuid, model::Props)> = st.working_set.iter().flatten().filter_map(|u| st.tasks.get(u).map(|p| (*u, p.clone()))).collect();
+    exp_pending.sort();
+    if let Ok(pd) = replica.pending_task_data().await {
+        let mut got: Vec<(Uuid, model::Props)> = pd.iter().map(|t| (t.get_uuid(), t.iter().map(|(k, v)| (k.clone(), v.clone())).collect())).collect();
+        got.sort();
+        if got != exp_pending {
+            errs.push(format!("pending_task_data lists {:?}, the working set holds {:?}", got.iter().map(|x| model::short(&x.0)).collect::<Vec<_>>(), exp_pending.iter().map(|x| model::short(&x.0)).collect::<Vec<_>>()));
+        }
+    }
+    if let Ok(pt) = replica.pending_tasks().await {
+        let mut got: Vec<(Uuid, model::Props)> = pt.iter().map(|t| (t.get_uuid(), props(t.get_taskmap()))).collect();
+        got.sort();
+        if got != exp_pending {
+            errs.push(format!("pending_tasks lists {:?}, the working set holds {:?}", got.iter().map(|x| model::short(&x.0)).collect::<Vec<_>>(), exp_pending.iter().map(|x| model::short(&x.0)).collect::<Vec<_>>()));
+        }
+    }
+    if let Ok(ws) = replica.working_set().await {
+        let n_some = st.working_set.iter().flatten().count();
+        let mut bad = ws.len() != n_some || ws.is_empty() != (n_some == 0);
+        for i in 0..st.working_set.len() + 2 {
+            if ws.by_index(i) != st.working_set.get(i).copied().flatten() {
+                bad = true;
+            }
+        }
+        let exp_iter: Vec<(usize, Uuid)> = st.working_set.iter().enumerate().filter_map(|(i, u)| u.map(|u| (i, u))).collect();
+        if ws.iter().collect::<Vec<_>>() != exp_iter {
+            bad = true;
+        }
+        for (i, u) in &exp_iter {
+            // (a uuid listed twice may report either of its slots)
+            match ws.by_uuid(*u) {
+                Some(k) if k == *i || exp_iter.iter().any(|(j, v)| v == u && *j == k) => {}
+                _ => bad = true,
+            }
+        }
+        if bad {
+            errs.push(format!("the WorkingSet view (len {}, entries {:?}) does not describe the stored working set {:?}", ws.len(), ws.iter().collect::<Vec<_>>(), st.working_set));
+        }
+    }
+    let (n_ops, n_undo) = (st.unsynced.iter().filter(|o| !o.is_undo_point()).count(), st.unsynced.iter().filter(|o| o.is_undo_point()).count());
+    if let Ok(k) = replica.num_local_operations().await {
+        if k != n_ops {
+            errs.push(format!("num_local_operations is {k}, the store holds {n_ops} unsynchronized operations"));
+        }
+    }
+    if let Ok(k) = replica.num_undo_points().await {
+        if k != n_undo {
+            errs.push(format!("num_undo_points is {k}, the store holds {n_undo} undo points"));
+        }
+    }
+    if !errs.is_empty() {
+        w.borrow_mut().violation("replica.read", "bulk", format!("node {n} action {a}: {}", errs.join("; ")));
+    }
 }
 
 fn hash_state(w: &World) -> u64 {
